@@ -317,6 +317,27 @@ func (C01) Run(t *testing.T, sc any) *sim.Outcome {
 			}
 		}
 	}
+	// the order of the request list decides nothing
+	if len(cfg.PathsToExtract) >= 2 && len(out.Violations) == 0 && obs.Panic == "" {
+		rev := cfg.Clone()
+		for i, j := 0, len(rev.PathsToExtract)-1; i < j; i, j = i+1, j-1 {
+			rev.PathsToExtract[i], rev.PathsToExtract[j] = rev.PathsToExtract[j], rev.PathsToExtract[i]
+		}
+		ro := Execute(t, rev)
+		out.Executions++
+		out.Count("request_order_runs", 1)
+		a, b := extractCounts(obs), extractCounts(ro)
+		for _, k := range sortedKeys(a) {
+			if a[k] != b[k] {
+				out.Violate("request-order-dependent", "request-order-dependent:"+ruleTags(cfg), "%s is extracted %d time(s) with requested paths %v and %d time(s) with the list reversed [%s]", k, a[k], cfg.PathsToExtract, b[k], configSummary(cfg))
+			}
+		}
+		for _, k := range sortedKeys(b) {
+			if _, ok := a[k]; !ok {
+				out.Violate("request-order-dependent", "request-order-dependent:"+ruleTags(cfg), "%s is extracted %d time(s) with the request list reversed and not at all with %v [%s]", k, b[k], cfg.PathsToExtract, configSummary(cfg))
+			}
+		}
+	}
 	out.Sample = map[string]any{"tree": cfg.Roots[cfg.PathsRoot].Tree.String(), "config": configSummary(cfg), "expected_extractions": sortedKeys(ref.Extracts), "seam_events": len(obs.Events)}
 	return out
 }
